@@ -13,6 +13,16 @@ ALLOWED_AXIOMS = {
 }
 
 PROPS = {
+    "C09": {
+        "n": {"quick": 600, "thorough": 15000},
+        "shards": 16,
+        "trusted": [
+            "references model on ASTs: findDefinitionTarget, allJournalsWithPaths, the three find*References, sortAndDedup, astRangeToProtocol (uint32 wrap); inputs are the ASTs of the resolved journal the server consults (read through exported API) and of the open document",
+            "rename is checked by the harness: the returned edits are applied (UTF-16 aware) to the texts of the scope and compared with the texts in which exactly the occurrences are renamed",
+        ],
+        "assumptions": ["occurrences are compared by (file, start line, start character); payees by (file, line): range ends and payee columns are C08's subject"],
+        "explanation": "C09_references_exact for all journal sets; own-path lemma (partial); refutation from an included file; tie on locations and rename edits; oracle: occurrence set over the scope the property names + applied rename",
+    },
     "C16": {
         "n": {"quick": 600, "thorough": 15000},
         "shards": 16,
